@@ -3,6 +3,7 @@
 -/
 import HctlProofs.Lemmas.CacheMain
 import HctlProofs.Lemmas.KeyProof
+import HctlProofs.Lemmas.MarkDups
 import HctlModel.Api
 namespace Hctl.C04
 open Hctl Kripke
@@ -20,7 +21,7 @@ theorem cache_transparent (t : Tree) (U : CSet) (ds : List (Option Name)) (ctx :
     (hq : GoodQ C E K U0 t U ds) (hf : ctx.fvd = fvdOf ds) (hc : CacheOK C E K U0 ctx) :
     ∃ r ctx', Eval.evalNode E (Ops.steadyOf E U0) t U ctx = .ok (r, ctx') ∧
       Sem E r U (sat E.G K t) ∧ CacheOK C E K U0 ctx' ∧ ctx'.fvd = ctx.fvd :=
-  evalNode_sound hE hG hK (keySem_holds hC hE hG hK hSC hU0) (keyWild_holds hC E K U0) hA t U ds ctx hq hf hc
+  evalNode_sound hC hE hG hK (keySem_holds hC hE hG hK hSC hU0) (keyWild_holds hC E K U0) hA t U ds ctx hq hf hc
 
 /-- … hence it equals the cache-free evaluator (sharing disabled) -/
 theorem cached_eq_pure (t : Tree) (U : CSet) (ds : List (Option Name)) (ctx : ECtx)
@@ -42,7 +43,7 @@ theorem batch_sound : ∀ (trees : List Tree) (ctx : ECtx), (∀ t ∈ trees, Go
   | cons t ts ih =>
     intro ctx hq hf hc
     obtain ⟨r, ctx', he, hs, hc', hf'⟩ :=
-      evalNode_sound hE hG hK (keySem_holds hC hE hG hK hSC hU0) (keyWild_holds hC E K U0) hA t U0 [] ctx (hq t (by simp)) (by simpa [fvdOf, fvdFrom] using hf) hc
+      evalNode_sound hC hE hG hK (keySem_holds hC hE hG hK hSC hU0) (keyWild_holds hC E K U0) hA t U0 [] ctx (hq t (by simp)) (by simpa [fvdOf, fvdFrom] using hf) hc
     obtain ⟨rs, hev, hlen, hall⟩ := ih ctx' (fun t' ht' => hq t' (by simp [ht'])) (hf'.trans hf) hc'
     refine ⟨r :: rs, by simp [Api.evalAll, he, hev], by simp [hlen], ?_⟩
     intro i hi hi'
@@ -72,8 +73,7 @@ omit hK hC hSC hU0 hA in
 /-- with an empty context (no wild-cards) ANY duplicate map whose keys have at most one variable gives an
 invariant-satisfying initial context; the empty map (sharing disabled) trivially so -/
 theorem init_cacheOK_plain (D : DupMap)
-    (hD : ∀ key n, dupGet key D = some n → ∀ t U ds ren, GoodQ C E noCtx U0 t U ds →
-      keyOf t (fvdOf ds) = (key, ren) → ren.length ≤ 1) :
+    (hD : ∀ key n, dupGet key D = some n → KeyWitness C E key) :
     CacheOK C E noCtx U0 { dups := D } :=
   ⟨fun _ _ _ h => by simp [cacheGet] at h, fun _ _ h => by simp [noCtx, noCtx'] at h,
    fun _ _ h => by simp [noCtx, noCtx'] at h, hD⟩
@@ -272,8 +272,7 @@ by the (deduplicated) wild-card and domain sets — so `cache_transparent` / `ba
 points from their very first call. -/
 theorem init_cacheOK_ext {C : CharClass} (hC : Lex.CharsOK C) {E : Env} {U0 : CSet} (D : DupMap)
     (props doms : List (Name × CSet)) (hp : (props.map Prod.fst).Nodup) (hd : (doms.map Prod.fst).Nodup)
-    (hD : ∀ key n, dupGet key D = some n → ∀ t U ds ren, GoodQ C E (ctxOf props doms) U0 t U ds →
-      keyOf t (fvdOf ds) = (key, ren) → ren.length ≤ 1) :
+    (hpv : ∀ e ∈ props, Lex.ValidId C e.1) (hD : ∀ key n, dupGet key D = some n → KeyWitness C E key) :
     CacheOK C E (ctxOf props doms) U0 (({ dups := D } : ECtx).extendWithWildCards props doms) := by
   have h0 : WInv D [] ({ dups := D } : ECtx) :=
     ⟨fun _ _ _ h => by simp [cacheGet] at h, fun _ h => by simp at h, fun key n h => Or.inr (by simp [h])⟩
@@ -291,17 +290,21 @@ theorem init_cacheOK_ext {C : CharClass} (hC : Lex.CharsOK C) {E : Env} {U0 : CS
     exact hw.i2 (w, a) hmem
   · intro l a hla
     exact domFold_lookup doms _ hd l a hla
-  · intro key n hg t U ds ren hq hkey
-    rcases hw.i3 key n hg with ⟨e, _, h1⟩ | h1
-    · have := hKW.key_wild t U ds e.1 ren hq (by rw [← h1]; exact hkey)
-      subst this
-      have hv : Lex.ValidId C e.1 := by simpa [Lex.TreeOK] using hq.valid.1
-      rw [hKW.wild_key e.1 ds hv] at hkey
-      have : ren = [] := by cases hkey; rfl
-      simp [this]
+  · intro key n hg
+    rcases hw.i3 key n hg with ⟨e, he, h1⟩ | h1
+    · subst h1
+      refine ⟨.atom (.wild e.1), 0, [], [], ?_, by simp, by simp [DepthNamed], by simp [WellScoped],
+        by simpa [Lex.TreeOK] using hpv e he, by simp [PropNamesOK]⟩
+      have := hKW.wild_key e.1 [] (hpv e he)
+      simpa [fvdOf, fvdFrom] using this
     · cases hdg : dupGet key D with
       | none => simp [hdg] at h1
-      | some m => exact hD key m hdg t U ds ren hq hkey
+      | some m => exact hD key m hdg
+
+end Hctl.C04
+
+namespace Hctl.C04
+open Hctl Kripke
 
 theorem dedupNames_nodup (l : List (Name × CSet)) : ((Api.dedupNames l).map Prod.fst).Nodup := by
   unfold Api.dedupNames
@@ -347,16 +350,53 @@ theorem extended_batch_sound (U0 : CSet) (trees : List Tree) (D : DupMap) (props
     (hSC : CtxSC (ctxOf (Api.dedupNames props) (Api.dedupNames doms)))
     (hU0 : ∀ p ∈ E.pts, ∀ i t, t < E.G.nS → U0 (p.setV i t) = U0 p)
     (hq : ∀ t ∈ trees, GoodQ C E (ctxOf (Api.dedupNames props) (Api.dedupNames doms)) U0 t U0 [])
-    (hD : ∀ key n, dupGet key D = some n → ∀ t U ds ren,
-      GoodQ C E (ctxOf (Api.dedupNames props) (Api.dedupNames doms)) U0 t U ds →
-      keyOf t (fvdOf ds) = (key, ren) → ren.length ≤ 1) :
+    (hpv : ∀ e ∈ Api.dedupNames props, Lex.ValidId C e.1)
+    (hD : ∀ key n, dupGet key D = some n → KeyWitness C E key) :
     ∃ rs, Api.evalAll E (Ops.steadyOf E U0) U0 trees
         (({ dups := D } : ECtx).extendWithWildCards (Api.dedupNames props) (Api.dedupNames doms)) = .ok rs ∧
       rs.length = trees.length ∧
       ∀ i (hi : i < trees.length) (hi' : i < rs.length),
         Sem E rs[i] U0 (sat E.G (ctxOf (Api.dedupNames props) (Api.dedupNames doms)) trees[i]) := by
-  have hc := init_cacheOK_ext hC (E := E) (U0 := U0) D _ _ (dedupNames_nodup props) (dedupNames_nodup doms) hD
+  have hc := init_cacheOK_ext hC (E := E) (U0 := U0) D _ _ (dedupNames_nodup props) (dedupNames_nodup doms) hpv hD
   exact batch_sound hE hG hK hC hSC hU0 hA trees _ hq (by simp [extend_eq, wildFold_fvd]) hc
+
+end
+section
+variable {C : CharClass} (hC : Lex.CharsOK C) {E : Env} (hE : EnvOK E) (hG : GraphWF E.G) (hA : C12.GraphAsync E.G)
+include hC hE hG hA
+
+omit hC hE hG hA in
+theorem goodQ_roots {K : SemCtx} {U0 : CSet} (trees : List Tree) (hq : ∀ t ∈ trees, GoodQ C E K U0 t U0 []) :
+    ∀ t ∈ trees, DepthNamed 0 t ∧ WellScoped E.G.k 0 t ∧ Lex.TreeOK C t ∧ PropNamesOK t :=
+  fun t ht => ⟨(hq t ht).named, (hq t ht).wscoped, (hq t ht).valid.1, (hq t ht).valid.2⟩
+
+/-- END TO END, plain batch entry point (`_model_check_multiple_trees_dirty`): with the duplicate map computed by
+`mark_duplicates` ITSELF, the results are exactly the satisfaction sets — no hypothesis about keys or duplicates is
+left. -/
+theorem treesDirty_sound (U0 : CSet) (trees : List Tree)
+    (hU0 : ∀ p ∈ E.pts, ∀ i t, t < E.G.nS → U0 (p.setV i t) = U0 p)
+    (hq : ∀ t ∈ trees, GoodQ C E noCtx U0 t U0 []) :
+    ∃ rs, Api.treesDirty E U0 trees = .ok rs ∧ rs.length = trees.length ∧
+      ∀ i (hi : i < trees.length) (hi' : i < rs.length), Sem E rs[i] U0 (sat E.G noCtx trees[i]) := by
+  have hc : CacheOK C E noCtx U0 { dups := markDups trees } :=
+    init_cacheOK_plain hE hG _ (markDups_witness trees (goodQ_roots trees hq))
+  exact batch_sound hE hG (ctxOK_noCtx E) hC ctxSC_noCtx hU0 hA trees _ hq rfl hc
+
+/-- END TO END, extended batch entry point: the context is built from `mark_duplicates` and
+`extend_context_with_wild_cards`, nothing else is assumed about it. -/
+theorem extendedDirty_sound (U0 : CSet) (trees : List Tree) (props doms : List (Name × CSet))
+    (hK : CtxOK E (ctxOf (Api.dedupNames props) (Api.dedupNames doms)))
+    (hSC : CtxSC (ctxOf (Api.dedupNames props) (Api.dedupNames doms)))
+    (hU0 : ∀ p ∈ E.pts, ∀ i t, t < E.G.nS → U0 (p.setV i t) = U0 p)
+    (hpv : ∀ e ∈ Api.dedupNames props, Lex.ValidId C e.1)
+    (hq : ∀ t ∈ trees, GoodQ C E (ctxOf (Api.dedupNames props) (Api.dedupNames doms)) U0 t U0 []) :
+    ∃ rs, Api.evalAll E (Ops.steadyOf E U0) U0 trees
+        (({ dups := markDups trees } : ECtx).extendWithWildCards (Api.dedupNames props) (Api.dedupNames doms)) = .ok rs ∧
+      rs.length = trees.length ∧
+      ∀ i (hi : i < trees.length) (hi' : i < rs.length),
+        Sem E rs[i] U0 (sat E.G (ctxOf (Api.dedupNames props) (Api.dedupNames doms)) trees[i]) :=
+  extended_batch_sound hC hE hG hA U0 trees _ props doms hK hSC hU0 hq hpv
+    (markDups_witness trees (goodQ_roots trees hq))
 
 end
 end Hctl.C04
